@@ -36,13 +36,15 @@ structure Quirks where
   /-- grammar.y turns `x[i..<k]` with a constant k <= 1 into `x[i..]`, also when it is an lvalue, where it then
       means `x[i..<1]`: `x[i..<0] = v` is accepted with the constant and an error with a variable 0 -/
   lvRangeConstRev : Bool := true
+  /-- grammar.y rewrites `0 - X` to `-X`: for X = 0.0 the result is -0.0, the computed difference is +0.0 -/
+  zeroMinusNeg : Bool := true
   deriving Repr, DecidableEq
 
 def Quirks.real : Quirks := {}
 def Quirks.none : Quirks :=
   { numOpEqReal := false, addEqNumStr := false, strRangeRevNeg := false, bufStoreZero := false, foldAddZeroReal := false,
     optimisticTypes := false, revRangeWrap := false, ppIf32 := false,
-    lvRangeConstRev := false }
+    lvRangeConstRev := false, zeroMinusNeg := false }
 
 variable {R : Type}
 
